@@ -194,6 +194,10 @@ func checkC14(e *Env) {
 				for _, l := range []int64{0, 2, 5, 9, -1, 10, math.MinInt64} {
 					send(plan.Op{Fn: "enc", L: l, E: hx(r.Bytes(size))}, "entropy-length")
 				}
+				// the same lengths in slices with a little spare capacity behind them
+				for _, extra := range []int{1, 2, 3, 5, 9} {
+					send(plan.Op{Fn: "enc", L: int64(size % ref.NLang), E: hx(r.Bytes(size)), Cap: extra}, "entropy-length-with-spare-capacity")
+				}
 			}
 			for _, size := range []int{1 << 10, 1 << 16, 1 << 20, maxStr} {
 				send(plan.Op{Fn: "enc", L: 2, ESegs: []plan.Seg{{H: "00", R: size}}}, "entropy-large")
